@@ -96,6 +96,10 @@ def build(kinds, deps):
                 if kinds[j] == 'const':
                     members.append(S.M('a%d' % j, 'u8', S.FIXED, values[jn]))
                     mx.append('<member name="a%d" type="u8"><dimension size="%s"/></member>' % (j, jn))
+                elif kinds[j] == 'enum' and (i + j) % 2:
+                    # the dependency is an array size that names the enumerator (not a member of the enum's type)
+                    members.append(S.M('a%d' % j, 'u8', S.FIXED, values[jn]))
+                    mx.append('<member name="a%d" type="u8"><dimension size="%sV"/></member>' % (j, jn))
                 else:
                     members.append(S.M('m%d' % j, jn))
                     mx.append('<member name="m%d" type="%s"/>' % (j, jn))
@@ -113,6 +117,10 @@ def build(kinds, deps):
                     ax.append('<member name="c%d" type="u8" discriminatorValue="%s"/>' % (j, jn)
                               if idx == 0 else
                               '<member name="c%d" type="u8" discriminatorValue="%d"/>' % (j, values[jn] + 100 * idx))
+                elif kinds[j] == 'enum' and (i + j) % 2 and idx == 0:
+                    # the dependency is a discriminator that names the enumerator
+                    arms.append(S.Arm(values[jn], 'u8', 'c%d' % j))
+                    ax.append('<member name="c%d" type="u8" discriminatorValue="%sV"/>' % (j, jn))
                 else:
                     arms.append(S.Arm(50 + idx, jn, 'm%d' % j))
                     ax.append('<member name="m%d" type="%s" discriminatorValue="%d"/>' % (j, jn, 50 + idx))
